@@ -362,6 +362,17 @@ func c04Eval(c *Config, cs C04Case) string {
 		if s := cmpFramed(c, m.AVP, recs, "avp"); s != "" {
 			return s
 		}
+		// the same body read while another source is read at the same time (after a message too large
+		// for the pooled read buffer): still exactly the walk by declared lengths
+		if len(wire) > 20 {
+			mo, err := ReadOverlapped(wire, c.A.D.P)
+			if err != nil {
+				return "the body decodes on its own but is rejected when its read overlaps with a read from another source: " + err.Error()
+			}
+			if s := cmpFramed(c, mo.AVP, recs, "avp"); s != "" {
+				return "read overlapping with a read from another source: " + s
+			}
+		}
 		// the exported AVP.DecodeFromBytes on ONE AVP value that is decoded into again and again
 		// (first a vendor-specific AVP, then every top-level record in order) must report what a
 		// fresh decode of the same bytes reports
@@ -494,7 +505,7 @@ func runC04(ctx *ev.Ctx) {
 			ctx.Report("", generalise(what), what+" | case: "+mc.Desc(), mc)
 		}
 	})
-	ctx.Rule += " The code of every vendor-less Grouped AVP also under a foreign vendor id (a leaf), directly after / before / inside the real group. Wide containers: a grouped AVP behind 0..257 sibling members (counts around 16, 32, 64 and 256), at top level, inside a group and two levels down. Every top-level record of every accepted body is also decoded with the exported AVP.DecodeFromBytes into ONE AVP value that held a vendor-specific AVP first and then every earlier record, and compared with a fresh decode of the same bytes."
+	ctx.Rule += " The code of every vendor-less Grouped AVP also under a foreign vendor id (a leaf), directly after / before / inside the real group. Wide containers: a grouped AVP behind 0..257 sibling members (counts around 16, 32, 64 and 256), at top level, inside a group and two levels down. Every accepted body is read a second time overlapping with a complete read from another source, after an oversize message. Every top-level record of every accepted body is also decoded with the exported AVP.DecodeFromBytes into ONE AVP value that held a vendor-specific AVP first and then every earlier record, and compared with a fresh decode of the same bytes."
 	ctx.Assume = []string{"reference framer (refcodec.Frame) walks by pad4(declared length) only", "a by-Length decoder accepts a sequence iff it accepts each record on its own (used to tell a legitimate value rejection from a framing error)"}
 }
 
